@@ -41,7 +41,7 @@ def run(cmd, cwd=None, env=None, timeout=None, inp=None):
 
 def build_tools():
     os.makedirs(BIN, exist_ok=True)
-    for t in ("go2lean", "gofacts"):
+    for t in ("go2lean", "gofacts", "gostr2lean"):
         rc, o, e = run(["go", "build", "-o", os.path.join(BIN, t), "./" + t], cwd=os.path.join(V, "tools"), env=GOENV)
         if rc != 0:
             raise SystemExit(f"building tools/{t} failed:\n{e}")
@@ -52,7 +52,7 @@ def regenerate():
     broken = []
     tmp = tempfile.mkdtemp(prefix="gen", dir=BUILD)
     try:
-        for tool, files in (("go2lean", ["Counts.lean", "Sizes.lean"]), ("gofacts", ["Tables.lean", "Cmds.lean"])):
+        for tool, files in (("go2lean", ["Counts.lean", "Sizes.lean"]), ("gofacts", ["Tables.lean", "Cmds.lean"]), ("gostr2lean", ["Strs.lean"])):
             rc, o, e = run([os.path.join(BIN, tool), REPO, tmp])
             if rc != 0:
                 broken.append(f"{tool} cannot translate the current source: {e.strip().splitlines()[-1] if e.strip() else 'failed'}")
@@ -86,7 +86,7 @@ def build_driver_model():
     rc, out = lake_build(["gsmodel"])
     if rc != 0:
         msg = "the regenerated Gen/*.lean no longer compiles together with the model driver: " + first_error(out)
-        gen_fallback(["Counts.lean", "Sizes.lean", "Tables.lean", "Cmds.lean"])
+        gen_fallback(["Counts.lean", "Sizes.lean", "Tables.lean", "Cmds.lean", "Strs.lean"])
         rc2, out2 = lake_build(["gsmodel"])
         if rc2 != 0:
             raise SystemExit("gsmodel does not build even with baseline Gen:\n" + out2[-3000:])
@@ -308,7 +308,7 @@ def main():
     lock = open(os.path.join(BUILD, ".lock"), "w")
     fcntl.flock(lock, fcntl.LOCK_EX)
 
-    if not all(os.path.exists(os.path.join(BIN, t)) for t in ("go2lean", "gofacts")):
+    if not all(os.path.exists(os.path.join(BIN, t)) for t in ("go2lean", "gofacts", "gostr2lean")):
         build_tools()
 
     if args.replay:
